@@ -110,7 +110,8 @@ def lowest_iter_sort(l, pkg_grabber=pkg_grabber):
     return l
 
 
-class MutableContainmentRestriction(values.base):
+class MutableContainmentRestriction(values.base, caching=False):
+    # wraps a mutable (unhashable) container by reference; instances can't be cached
     __slots__ = ("_blacklist", "match")
 
     def __init__(self, blacklist):
